@@ -15,7 +15,7 @@ DEMO_PATH=${DEMO_PATH#/tmp/wt/*/}
 DEMO_FILE=$(ls $SRC/demo_test.go 2>/dev/null || ls $SRC/*_test.go | head -1)
 mkdir -p "$(dirname "$DEMO_PATH")"; cp "$DEMO_FILE" "$DEMO_PATH"
 # normalise the demo command to run here
-CMD=$(echo "$DEMO_CMD" | sed -E 's#cd /tmp/wt/[A-Z0-9]+ *&& *##; s#/tmp/wt/[A-Z0-9]+/##g')
+CMD=$(echo "$DEMO_CMD" | sed -E "s#cd (/tmp/wt/[A-Z0-9]+|<repo>) *&& *##; s#/tmp/wt/[A-Z0-9]+/##g")
 echo "demo cmd: $CMD"
 R_UNCH=$(bash -c "$CMD" 2>&1 | tail -3); S_UNCH=$?
 bash -c "$CMD" >/tmp/seed_unch.$$ 2>&1; S_UNCH=$?
